@@ -243,7 +243,12 @@ def _iter(ex, args, f):
         return t
     if isinstance(t, (Arr, VecV)):
         r, tt = container_ref(ex, v)
-        return SliceIter(r, len(tt.items))
+        it = SliceIter(r, len(tt.items))
+        # `Vec<T>::into_iter()` / `[T; N]::into_iter()` consume the container and yield the items by value
+        fs = f.strip()
+        it.owned = bool(re.match(r"^<(?:std::vec::)?Vec<.*> as (?:std::iter::)?IntoIterator>::into_iter", fs) or re.match(r"^<\[.*; \d+\] as (?:std::iter::)?IntoIterator>::into_iter", fs)
+                        or fs.startswith("Vec::into_iter") or fs.startswith("Vec::<") and fs.endswith("::into_iter"))
+        return it
     if isinstance(t, Str):
         return SliceIter(Ref(Cell(Arr([Int(b, "u8") for b in t.bytes()]))), len(t))
     raise Unsupported("iter over %r" % (t,))
@@ -260,6 +265,8 @@ def _next2(ex, args, f):
             return NONE
         r = Ref(it.base.cell, it.base.proj + (("idx", it.i),))
         it.i += 1
+        if getattr(it, "owned", False):
+            return some(ex.read_ref(r))
         return some(r)
     return _prev_next(ex, args, f)
 
@@ -328,6 +335,13 @@ def _try_into(ex, args, f):
         if ex.decide(fits):
             return ok(Int(z3.Extract(w1 - 1, 0, v.e) if w1 < w0 else z3.ZeroExt(w1 - w0, v.e), ty))
         return err(Opaque("TryFromIntError"))
+    # blanket impl: <T as TryInto<U>>::try_into(x) = <U as TryFrom<T>>::try_from(x); <T as Into<U>> likewise: look for the crate's impl on U
+    m2 = re.match(r"^<(.*) as (?:std::convert::)?TryInto<(.*)>>::try_into$", f.strip())
+    if m2:
+        from symex import base_name
+        fn = ex.find_impl("try_from", "TryFrom", base_name(m2.group(2)))
+        if fn is not None:
+            return ex.call_fn(fn, [args[0]])
     raise Unsupported("try_into: " + f)
 
 
